@@ -4,6 +4,7 @@ import (
 	"context"
 	"fmt"
 	"sort"
+	"strings"
 	"time"
 
 	abci "github.com/cometbft/cometbft/abci/types"
@@ -72,6 +73,9 @@ type L2 struct {
 	ValSet *cmttypes.ValidatorSet
 	// last EndBlocker outcome
 	LastUpdates []abci.ValidatorUpdate
+
+	// T, when set, records every delivered transaction and block hook outcome (shared by branches).
+	T *Transcript
 }
 
 // L2Opts configures a new L2.
@@ -164,6 +168,7 @@ func NewL2(opts L2Opts) *L2 {
 func (c *L2) InitGenesis(gs *opchildtypes.GenesisState) ([]abci.ValidatorUpdate, error) {
 	ups := c.K.InitGenesis(c.Ctx, gs)
 	c.LastUpdates = ups
+	c.T.Add("INITGENESIS updates=%s", FormatUpdates(ups))
 	tm, err := cmttypes.PB2TM.ValidatorUpdates(ups)
 	if err != nil {
 		return ups, err
@@ -222,10 +227,16 @@ func (c *L2) RestorePlans(m map[uint64]opchildtypes.ExecutorChangePlan) {
 
 func (c *L2) Fund(addr sdk.AccAddress, coins ...sdk.Coin) { fund(c.Ctx, c.BK, addr, coins...) }
 
-func (c *L2) Deliver(msgs ...sdk.Msg) Result { return deliver(c.Ctx, c.Router, 0, msgs...) }
+func (c *L2) Deliver(msgs ...sdk.Msg) Result {
+	r := deliver(c.Ctx, c.Router, 0, msgs...)
+	c.T.AddResult(msgs, r)
+	return r
+}
 
 func (c *L2) DeliverGas(gasLimit uint64, msgs ...sdk.Msg) Result {
-	return deliver(c.Ctx, c.Router, gasLimit, msgs...)
+	r := deliver(c.Ctx, c.Router, gasLimit, msgs...)
+	c.T.AddResult(msgs, r)
+	return r
 }
 
 func (c *L2) Dump(only ...string) []KV { return DumpStores(c.Ctx, c.Keys, only...) }
@@ -270,11 +281,15 @@ func (c *L2) EndBlock() (br BlockResult) {
 	ups, err := opchild.EndBlocker(cctx, c.K)
 	br.Updates, br.EndErr = ups, err
 	if err != nil {
+		c.T.Add("ENDBLOCK h=%d error=%v", c.Ctx.BlockHeight(), err)
 		return br
 	}
 	write()
 	c.LastUpdates = ups
 	br.EngineErr = c.applyToEngine(ups)
+	if c.T != nil {
+		c.T.Add("ENDBLOCK h=%d updates=%s engineErr=%v digest=%s", c.Ctx.BlockHeight(), FormatUpdates(ups), br.EngineErr, Digest(c.Dump()))
+	}
 	return br
 }
 
@@ -378,4 +393,16 @@ func (c *L2) FundModule(module string, coins ...sdk.Coin) {
 	if err := c.BK.SendCoinsFromModuleToModule(ctx, MinterModule, module, cs); err != nil {
 		panic(err)
 	}
+}
+
+// FormatUpdates renders a validator-update list in order, by key bytes and power.
+func FormatUpdates(ups []abci.ValidatorUpdate) string {
+	var sb strings.Builder
+	sb.WriteString("[")
+	for _, u := range ups {
+		bz, _ := u.PubKey.Marshal()
+		fmt.Fprintf(&sb, "%X:%d ", bz, u.Power)
+	}
+	sb.WriteString("]")
+	return sb.String()
 }
